@@ -224,6 +224,22 @@ func c07Ops() []histOp {
 	ops = append(ops, encOps("EnumAsI64", eb, ebv)[1:3]...)
 	ops = append(ops, decOp("EnumAsEnum:dec", ea, ref.Encode(ea, eav), nil), decOp("EnumAsI64:dec", eb, ref.Encode(eb, ebv), nil))
 
+	// the recursive type with a partial default initialiser: by-value map entries decoded into pooled scratch
+	dps, _ := universe.DPSpecs()
+	dpv := func(setB bool) *ref.Val {
+		v := ref.InitStruct(dps)
+		e1, e2 := ref.InitStruct(dps), ref.InitStruct(dps)
+		if setB {
+			e1.F[1], e1.F[2] = ref.Str("bee"), ref.Str("cee")
+			e1.F[3] = ref.List(ref.KList, ref.Int(ref.KI32, 7))
+		}
+		v.F[6] = &ref.Val{K: ref.KMap, M: [][2]*ref.Val{{ref.Str("a"), e1}, {ref.Str("b"), e2}}}
+		v.F[7] = ref.List(ref.KList, e1.Clone(), e2.Clone())
+		return v
+	}
+	ops = append(ops, decOp("DP:dec(entries set B)", dps, ref.Encode(dps, dpv(true)), nil), decOp("DP:dec(entries at defaults)", dps, ref.Encode(dps, dpv(false)), nil))
+	ops = append(ops, encOps("DP", dps, dpv(true))[2:]...)
+
 	// mutually nested static types: a valid pair and a pair whose A nests an invalid type
 	var valid, invalid *universe.GraphPair
 	for i := range universe.GraphPairs {
